@@ -174,7 +174,7 @@ func runCorr(comps []string, seed int64, n int, tier, drv string) (*corrReport, 
 			continue
 		}
 		lo := res["out"]
-		if isUnmodelled(lo) {
+		if isUnmodelled(lo) || isUnmodelled(p.goO) {
 			cr.Unmodelled++
 			continue
 		}
